@@ -186,6 +186,7 @@ type World struct {
 	Picks      int
 	Deadlock   bool
 	StepCapHit bool
+	transient  []*Req // lock waiters to be resumed without a step (see drain)
 	Stuck      []string
 	start      time.Time
 
@@ -499,6 +500,7 @@ func (w *World) drain() {
 		w.pending = append(w.pending, r)
 	}
 	w.inboxReset()
+	first := len(w.pending) - (n - len(notes))
 	for _, r := range notes {
 		switch r.Kind {
 		case NTaskDone:
@@ -510,6 +512,24 @@ func (w *World) drain() {
 				r.Res.Note(w, r)
 			}
 		}
+	}
+	// A lock waiter whose unlock note arrived in the very batch in which it registered lost a race
+	// in real time against a goroutine the library started itself (the QUIC handshake goroutine
+	// releasing its locks while the call that it completed returns): had it been a microsecond
+	// later, TryLock would have succeeded and no request would exist. It is resumed without a step,
+	// a log line or a choice, so that the execution is the same either way.
+	if first >= 0 {
+		kept := w.pending[:first:first]
+		for _, r := range w.pending[first:] {
+			if r.Kind == KLockWait && r.Res != nil {
+				if ok, _ := r.Res.Ready(w, r); ok {
+					w.transient = append(w.transient, r)
+					continue
+				}
+			}
+			kept = append(kept, r)
+		}
+		w.pending = kept
 	}
 }
 
@@ -550,6 +570,14 @@ func (w *World) RunUntil(until ...*Task) {
 	for {
 		synctestWait()
 		w.drain()
+		if len(w.transient) > 0 {
+			for _, r := range w.transient {
+				r.grant(0, nil, false)
+				r.cond.Signal()
+			}
+			w.transient = w.transient[:0]
+			continue
+		}
 		if len(until) == 0 {
 			if w.allDone() && len(w.pending) == 0 {
 				break
